@@ -47,6 +47,22 @@ def inputs(rep, t: str, rng: random.Random, per_space: int) -> List[Tuple[str, s
         except SyntaxError:
             continue
         out.append((f"effects:{f}:{c}:{k}", text, {}))
+    # Reach.tla shapes (python-side sampling of the grammar), as programs that run themselves under eight tapes
+    for name, shape in c16.directed_shapes():
+        if c16.terminates(shape):
+            out.append((f"reach:directed:{name}", c16.reach_program(shape), {}))
+    got = 0
+    for _ in range(per_space * 20):
+        if got >= per_space:
+            break
+        shape = c16.sample_shape(rng)
+        try:
+            if not c16.terminates(shape):
+                continue
+        except SyntaxError:
+            continue
+        got += 1
+        out.append((f"reach:{len(out)}", c16.reach_program(shape), {}))
     # Surface.tla libraries (python-side sampling of the record space)
     import render_surface
     kinds = ["func", "async", "class", "var", "annvar", "augvar", "tuple", "chain", "starred", "listtarget", "method", "selfless", "static",
@@ -129,6 +145,15 @@ def inputs(rep, t: str, rng: random.Random, per_space: int) -> List[Tuple[str, s
         if tname == "return":
             prog = body.replace("r = g(x, y)\n", "") + "for x in range(-1, 4):\n    for y in (0, 2):\n        print(x, y, g(x, y))\n"
         out.append((f"boolalg:{tname}:{len(out)}", prog, {}))
+    # every pair of comparisons of one variable with constants, equal or not, under both connectives (BoolAlg.tla's two-atom
+    # formulas over one variable, exhaustively: the values at and around the constants decide)
+    mirror = {"<": ">", "<=": ">=", ">": "<", ">=": "<=", "==": "==", "!=": "!="}
+    for conn in ("and", "or"):
+        for o1 in ops:
+            for o2 in ops:
+                cells = [f"x {o1} {c1} {conn} x {o2} {c2}" for c1 in (0, 1) for c2 in (0, 1)]
+                cells += [f"{c1} {mirror[o1]} x {conn} x {o2} {c2}" for c1, c2 in ((1, 1), (0, 1))]
+                out.append((f"boolalg:pairs:{conn}:{o1}:{o2}", "for x in range(-1, 4):\n    print(x, " + ", ".join(cells) + ")\n", {}))
     for _ in range(per_space // 2):
         parts = [f"x {rng.choice(ops)} {rng.choice([0, 1, 3, 7])}" for _ in range(3)]
         cond = rng.choice([f"{parts[0]} and {parts[1]}", f"{parts[0]} or {parts[1]}", f"{parts[0]} and ({parts[1]} or {parts[2]})",
